@@ -44,51 +44,7 @@ impl Randomness {
 //@end
 }
 
-// ======================= specification =======================
-pub uninterp spec fn ro_chal(bytes: Seq<u8>) -> FS;     // compute_random_oracle_challenge: hash-to-field of the byte string (random oracle)
-// succinct check polynomial h(X) = prod_{i=1..k} (1 + u_i X^(2^(k-i)))
-pub open spec fn scp_eval(u: Seq<FS>, z: FS, j: nat) -> FS decreases j {
-    if j == 0 { f_one() } else { f_mul(scp_eval(u, z, (j - 1) as nat), f_add(f_one(), f_mul(f_pow(z, vstd::arithmetic::power2::pow2((u.len() - j) as nat)), u[j - 1]))) }
-}
-// accumulation over the commitments: challenges xi_0, xi_1, ... squeezed one after the other (two per polynomial)
-pub open spec fn ipa_acc_v(cs: Seq<&LabeledCommitment<Commitment>>, vs: Seq<Fr>, z: FS, d: nat, s: SS, k: nat) -> FS decreases k {
-    if k == 0 { f_zero() } else { let j = (k - 1) as nat; let a = f_add(ipa_acc_v(cs, vs, z, d, s, j), f_mul(sp_chal(s, 2 * j), vs[j as int]@));
-        match cs[j as int].degree_bound { Some(b) => f_add(a, f_mul(f_mul(sp_chal(s, 2 * j + 1), vs[j as int]@), f_pow(z, (d - b) as nat))), None => a } }
-}
-pub open spec fn ipa_acc_c(cs: Seq<&LabeledCommitment<Commitment>>, s: SS, k: nat) -> FS decreases k {
-    if k == 0 { f_zero() } else { let j = (k - 1) as nat; let a = f_add(ipa_acc_c(cs, s, j), f_mul(cs[j as int].commitment.comm@, sp_chal(s, 2 * j)));
-        match cs[j as int].degree_bound { Some(b) => f_add(a, f_mul(cs[j as int].commitment.shifted_comm->Some_0@, sp_chal(s, 2 * j + 1))), None => a } }
-}
-
-// round challenges rc_0 = RO(C || z || v),  rc_{k+1} = RO(rc_k || L_k || R_k);  folded commitment after k rounds
-pub open spec fn ipa_rc(first: FS, ls: Seq<G1Affine>, rs: Seq<G1Affine>, k: nat) -> FS decreases k {
-    if k == 0 { first } else { ro_chal(Seq::<u8>::empty() + fr_ser_u(ipa_rc(first, ls, rs, (k - 1) as nat)) + g1_ser_u(ls[k - 1]@) + g1_ser_u(rs[k - 1]@)) }
-}
-pub open spec fn ipa_rcomm(start: FS, first: FS, ls: Seq<G1Affine>, rs: Seq<G1Affine>, k: nat) -> FS decreases k {
-    if k == 0 { start } else { f_add(ipa_rcomm(start, first, ls, rs, (k - 1) as nat),
-        f_add(f_mul(ls[k - 1]@, f_inv(ipa_rc(first, ls, rs, k))), f_mul(rs[k - 1]@, ipa_rc(first, ls, rs, k)))) }
-}
-pub open spec fn ipa_rcs(first: FS, ls: Seq<G1Affine>, rs: Seq<G1Affine>, n: nat) -> Seq<FS> { Seq::new(n, |i: int| ipa_rc(first, ls, rs, (i + 1) as nat)) }
-// the accumulated commitment (with the hiding correction) that enters the rounds
-pub open spec fn ipa_comb(vk: &VerifierKey, cs: Seq<&LabeledCommitment<Commitment>>, vs: Seq<Fr>, z: Fr, pr: &Proof, s: SS, n: nat) -> FS {
-    let c0 = ipa_acc_c(cs, s, n); let v = ipa_acc_v(cs, vs, z@, (vk.comm_key@.len() - 1) as nat, s, n);
-    if pr.hiding_comm is Some {
-        let hc = ro_chal(Seq::<u8>::empty() + g1_ser_u(c0) + fr_ser_u(z@) + fr_ser_u(v) + g1_ser_u(pr.hiding_comm->Some_0@));
-        f_add(c0, f_sub(f_mul(pr.hiding_comm->Some_0@, hc), f_mul(vk.s@, pr.rand->Some_0@)))
-    } else { c0 }
-}
-pub open spec fn ipa_first(comb: FS, z: FS, v: FS) -> FS { ro_chal(Seq::<u8>::empty() + g1_ser_u(comb) + fr_ser_u(z) + fr_ser_u(v)) }
-// published relation (DL/IPA PC of [BCMS20] sec. 3 / Halo): the folded commitment equals  c*U + c*h(z)*h'
-pub open spec fn ipa_relation(vk: &VerifierKey, cs: Seq<&LabeledCommitment<Commitment>>, vs: Seq<Fr>, z: Fr, pr: &Proof, s: SS, n: nat) -> bool {
-    let v = ipa_acc_v(cs, vs, z@, (vk.comm_key@.len() - 1) as nat, s, n);
-    let comb = ipa_comb(vk, cs, vs, z, pr, s, n);
-    let first = ipa_first(comb, z@, v);
-    let hp = f_mul(vk.h@, first);
-    let k = min(pr.l_vec@.len(), pr.r_vec@.len());
-    let rcomm = ipa_rcomm(f_add(comb, f_mul(hp, v)), first, pr.l_vec@, pr.r_vec@, k);
-    let u = ipa_rcs(first, pr.l_vec@, pr.r_vec@, k);
-    f_sub(rcomm, f_add(f_add(f_add(f_zero(), f_mul(pr.final_comm_key@, pr.c@)), f_mul(hp, f_mul(scp_eval(u, z@, k), pr.c@))), f_zero())) == f_zero()
-}
+//@spec ipa_spec
 pub struct InnerProductArgPC;
 impl InnerProductArgPC {
     // compute_random_oracle_challenge loops over a hash until from_random_bytes succeeds: taken by contract (deterministic function of the bytes)
@@ -216,11 +172,6 @@ impl IpaPC {
 }
 // k = ceil(log2 n): the least k with n <= 2^k
 pub open spec fn is_ceil_log2(n: nat, k: nat) -> bool { n <= p2(k) && (n > 1 ==> p2((k - 1) as nat) < n) && (n <= 1 ==> k == 0) }
-// the round challenges u_1..u_k of a transcript, and the key the verifier recomputes from them
-pub open spec fn ipa_u(vk: &VerifierKey, cs: Seq<&LabeledCommitment<Commitment>>, vs: Seq<Fr>, z: Fr, pr: &Proof, s: SS, n: nat) -> Seq<FS> {
-    let v = ipa_acc_v(cs, vs, z@, (vk.comm_key@.len() - 1) as nat, s, n);
-    ipa_rcs(ipa_first(ipa_comb(vk, cs, vs, z, pr, s, n), z@, v), pr.l_vec@, pr.r_vec@, min(pr.l_vec@.len(), pr.r_vec@.len()))
-}
 pub open spec fn ipa_final_key(vk: &VerifierKey, u: Seq<FS>) -> FS { msm(vk.comm_key@, scp_coeffs(u), min(vk.comm_key@.len(), scp_coeffs(u).len())) }
 pub proof fn lemma_log_unique(n: nat, r: nat, k: nat)
     requires is_ceil_log2(n, r), is_ceil_log2(n, k)
